@@ -24,7 +24,7 @@ SPEC = {
     "trusted_base": [
         "abstraction of a real wallet to (file name, type, seed id via its fingerprint, label id, encrypted?, password id found by trying the pool, number of entries, temporary?) done by the harness; wallet-level functions (address generation, lock/unlock) are reduced to these fields",
         "failure of the wallet directory is injected by renaming the directory away for the duration of one operation",
-        "wallet types covered: deterministic and collection (bip44 / xpub wallets are not generated)",
+        "wallet types covered: deterministic, collection, bip44 (account 0, per-chain entry counts, scans with a transactions finder reporting activity per chain and index, NewAddresses on either chain) and xpub",
     ],
     "assumptions": [
         "wf_op: address counts >= 0; created wallet files are named *wlt (the HTTP API always lets the service generate the name; a Go caller passing a name without that suffix gets a wallet the next start does not load)",
